@@ -501,7 +501,7 @@ where
 
         let _ = self.fulfill(xref_promise, stream)?;
 
-        write!(self.backend, "\nstartxref\n{}\n%%EOF", xref_pos).unwrap();
+        write!(self.backend, "\nstartxref\n{}\n%%EOF\n", xref_pos).unwrap();
 
         Ok(())
     }
